@@ -543,6 +543,15 @@ func (c *c10Oracle) Check(w *World, o *Obs) []Violation {
 		}
 		class := sessionStateClass(o.SessBefore)
 		w.Stats.Reach["c10_logout_from_"+class]++
+		// "no user identity, no half-auth": what makes the browser somebody
+		// does not survive a logout even when an application whitelists it
+		identity := map[string]bool{"uid": true, "halfauth": true, "last_action": true}
+		for k := range identity {
+			if wl[k] {
+				w.Stats.Reach["c10_identity_key_whitelisted"]++
+			}
+			delete(wl, k)
+		}
 		for k, v := range o.SessAfter {
 			if wl[k] {
 				continue
